@@ -33,6 +33,8 @@ const (
 type Stream struct {
 	Env  *Env
 	Name string
+	// Tag is appended to the fault kinds this stream reports ("read-error@file").
+	Tag  string
 	Data []byte
 	// Term is the terminal condition (nil means io.EOF).
 	Term error
@@ -62,12 +64,23 @@ type Stream struct {
 	ReadsAfterClose int
 	Reads           int
 	PosAtFirstClose int
+	TermBeforeClose   bool // the terminal condition had been delivered when the first Close arrived
+	CtxErrBeforeClose bool // a read had ended with the context's error before the first Close
+	ZeroReadDelivered bool
+	CtxErrDelivered   bool
 	firstDone       bool
 	nilBuf          bool
 }
 
 func NewStream(env *Env, name string, data []byte) *Stream {
 	return &Stream{Env: env, Name: name, Data: data, StallAt: -1}
+}
+
+func (s *Stream) tag() string {
+	if s.Tag == "" {
+		return ""
+	}
+	return "@" + s.Tag
 }
 
 func (s *Stream) term() error {
@@ -141,6 +154,7 @@ func (s *Stream) Read(p []byte) (int, error) {
 	})
 	if op == nil {
 		// context ended while parked
+		s.CtxErrDelivered = true
 		return 0, s.Ctx.Err()
 	}
 	s.Reads++
@@ -153,15 +167,17 @@ func (s *Stream) Read(p []byte) (int, error) {
 		op.End("0 (empty buffer)")
 		return 0, nil
 	case stall:
-		s.Env.Fault("stall")
+		s.Env.Fault("stall" + s.tag())
 		op.End("stalls at %d", s.Pos)
 		if s.Ctx == nil {
 			select {} // never generated
 		}
 		<-s.Ctx.Done()
+		s.CtxErrDelivered = true
 		return 0, s.Ctx.Err()
 	case zero:
 		s.Env.Fault("zero-length-read")
+		s.ZeroReadDelivered = true
 		op.End("0,nil")
 		return 0, nil
 	case n == 0:
@@ -192,7 +208,7 @@ func (s *Stream) deliverTerm(err error) {
 	if !s.TermDelivered {
 		s.TermDelivered = true
 		if err != io.EOF {
-			s.Env.Fault("read-error")
+			s.Env.Fault("read-error" + s.tag())
 		}
 	}
 	if err == io.EOF {
@@ -201,9 +217,11 @@ func (s *Stream) deliverTerm(err error) {
 }
 
 func (s *Stream) Close() error {
-	op := s.Env.Begin(s.Name, "close", nil, nil)
+	op := s.Env.BeginUrgent(s.Name, "close", nil)
 	if s.Closed == 0 {
 		s.PosAtFirstClose = s.Pos
+		s.TermBeforeClose = s.TermDelivered
+		s.CtxErrBeforeClose = s.CtxErrDelivered
 	}
 	s.Closed++
 	if s.CloseErr != nil {
@@ -264,7 +282,7 @@ func (w *Sink) Write(p []byte) (int, error) {
 type SinkCloser struct{ *Sink }
 
 func (w SinkCloser) Close() error {
-	op := w.Env.Begin(w.Name, "close", nil, nil)
+	op := w.Env.BeginUrgent(w.Name, "close", nil)
 	w.Closed++
 	op.End("close #%d", w.Closed)
 	return w.CloseErr
